@@ -423,4 +423,154 @@ theorem intLand_zero_left (b : Int) : intLand 0 b = 0 := by
 theorem intLand_zero_right (a : Int) : intLand a 0 = 0 := by
   unfold intLand; simp
 
+/-! ### mj_broadphase -/
+
+/-- the compatibility test of `add_pair` (on the OR of the geom masks) -/
+def orCompat (b1 b2 : Fin M.nbody) : Prop :=
+  ¬ (intLand (geomOr M b1).1 (geomOr M b2).2 = 0 ∧ intLand (geomOr M b2).1 (geomOr M b1).2 = 0)
+
+instance (b1 b2 : Fin M.nbody) : Decidable (orCompat M b1 b2) := by unfold orCompat; infer_instance
+
+/-- the stored pair: lower body id first -/
+def ordPair (b1 b2 : Fin M.nbody) : Fin M.nbody × Fin M.nbody := if b1.val < b2.val then (b1, b2) else (b2, b1)
+
+theorem addPair_ok {maxpair : Nat} {b1 b2 : Fin M.nbody} {acc r : List (Fin M.nbody × Fin M.nbody)}
+    (h : addPair M maxpair b1 b2 acc = .ok r) :
+    r = if orCompat M b1 b2 then acc ++ [ordPair M b1 b2] else acc := by
+  unfold addPair at h
+  split at h
+  · simp only at h
+    unfold orCompat ordPair
+    split at h
+    · rename_i hc
+      rw [if_neg (not_not.mpr hc)]
+      exact (Except.ok.inj h).symm
+    · rename_i hc
+      rw [if_pos hc]
+      split at h <;> rename_i hlt <;> simp only [hlt, ↓reduceIte] <;> exact (Except.ok.inj h).symm
+  · cases h
+
+theorem addPairs_ok {maxpair : Nat} : ∀ (l acc r : List (Fin M.nbody × Fin M.nbody)),
+    addPairs M maxpair l acc = .ok r →
+    r = acc ++ (l.filter (fun p => decide (orCompat M p.1 p.2))).map (fun p => ordPair M p.1 p.2)
+  | [], acc, r, h => by
+    simp only [addPairs] at h
+    simp [(Except.ok.inj h).symm]
+  | (b1, b2) :: rest, acc, r, h => by
+    unfold addPairs at h
+    split at h
+    · rename_i acc' hacc
+      have h1 := addPair_ok M hacc
+      have h2 := addPairs_ok rest acc' r h
+      rw [h2, h1]
+      by_cases hc : orCompat M b1 b2
+      · simp [hc, filter_cons]
+      · simp [hc, filter_cons]
+    · cases h
+
+/-- the list `mj_SAP` hands back to `mj_broadphase` (empty when at most one bodyflex is collidable) -/
+def sapList (boxes : List (Box (Fin M.nbody) Float32 Float)) : List (Fin M.nbody × Fin M.nbody) :=
+  if (bfid M).length > 1 then
+    (mjSAP sapCmp32 (fun (a b : Float) => a > b) boxes
+      ((((bfid M).length * ((bfid M).length - 1)) / 2 : Nat) : Int)).2
+  else []
+
+theorem uintCmp_le (a b : Nat) : uintCmp a b ≤ 0 ↔ a ≤ b := by
+  unfold uintCmp
+  split
+  · constructor <;> intro <;> omega
+  · split
+    · constructor <;> intro <;> omega
+    · constructor <;> intro <;> omega
+
+theorem bfCmp_totalPreorder : TotalPreorder (bfCmp M) := by
+  constructor
+  · intro a b; unfold bfCmp; rw [uintCmp_le, uintCmp_le]; omega
+  · intro a b c; unfold bfCmp; rw [uintCmp_le, uintCmp_le, uintCmp_le]; omega
+
+/-- **`mj_broadphase`**: when it returns (no buffer overflow, SAP did not fail) and some geom lies outside
+    the world body, its output is sorted by signature and consists exactly of the `add_pair`-compatible,
+    ordered versions of the init-loop pairs and of the SAP pairs that pass `filterBodyPair`. -/
+theorem mem_broadphase {boxes : List (Box (Fin M.nbody) Float32 Float)} {maxpair : Nat}
+    {bfs : List (Fin M.nbody × Fin M.nbody)}
+    (hg : ∃ g : Fin M.ngeom, (M.geom[g].bodyid).val ≠ 0)
+    (h : broadphase M boxes maxpair = .ok bfs) :
+    (∀ b, b ∈ bfs ↔ ∃ x y, ((x, y) ∈ initPairs M ∨ ((x, y) ∈ sapList M boxes ∧ filterBody M x y = false)) ∧
+        orCompat M x y ∧ b = ordPair M x y) ∧
+    bfs.Pairwise (fun a b => sigp M a ≤ sigp M b) := by
+  unfold broadphase at h
+  split at h
+  · cases h
+  · rename_i acc0 hacc0
+    have hnotall : ¬ ((List.finRange M.ngeom).all (fun g => decide ((M.geom[g].bodyid).val = 0)) = true) := by
+      rw [all_eq_true]
+      intro hall
+      obtain ⟨g, hg⟩ := hg
+      have := hall g (mem_finRange g)
+      exact hg (by simpa using this)
+    rw [if_neg hnotall] at h
+    simp only at h
+    -- the SAP result
+    have hsap : ∃ sp, (if (bfid M).length > 1 then
+          (if (mjSAP sapCmp32 (fun (a b : Float) => a > b) boxes
+              ((((bfid M).length * ((bfid M).length - 1)) / 2 : Nat) : Int)).1 < 0
+            then (Except.error "mj_broadphase: SAP failed" : Except String _)
+            else .ok (mjSAP sapCmp32 (fun (a b : Float) => a > b) boxes
+              ((((bfid M).length * ((bfid M).length - 1)) / 2 : Nat) : Int)).2)
+          else .ok []) = .ok sp ∧ sp = sapList M boxes := by
+      unfold sapList
+      by_cases hn : (bfid M).length > 1
+      · rw [if_pos hn, if_pos hn]
+        by_cases hneg : (mjSAP sapCmp32 (fun (a b : Float) => a > b) boxes
+              ((((bfid M).length * ((bfid M).length - 1)) / 2 : Nat) : Int)).1 < 0
+        · rw [if_pos hneg] at h
+          cases h
+        · rw [if_neg hneg]
+          exact ⟨_, rfl, rfl⟩
+      · rw [if_neg hn, if_neg hn]
+        exact ⟨_, rfl, rfl⟩
+    obtain ⟨sp, hsp1, hsp2⟩ := hsap
+    rw [hsp1] at h
+    simp only at h
+    split at h
+    · cases h
+    · rename_i acc hacc
+      have h0 := addPairs_ok M _ _ _ hacc0
+      have h1 := addPairs_ok M _ _ _ hacc
+      have hbfs := (Except.ok.inj h).symm
+      simp only [nil_append] at h0
+      -- membership in the unsorted buffer
+      have hmem_acc : ∀ b, b ∈ acc ↔ ∃ x y, ((x, y) ∈ initPairs M ∨ ((x, y) ∈ sapList M boxes ∧ filterBody M x y = false)) ∧
+          orCompat M x y ∧ b = ordPair M x y := by
+        intro b
+        rw [h1, h0, mem_append, mem_map, mem_map]
+        constructor
+        · rintro (⟨p, hp, rfl⟩ | ⟨p, hp, rfl⟩)
+          · obtain ⟨hp1, hp2⟩ := mem_filter.mp hp
+            exact ⟨p.1, p.2, Or.inl hp1, by simpa using hp2, rfl⟩
+          · obtain ⟨hp1, hp2⟩ := mem_filter.mp hp
+            obtain ⟨hp3, hp4⟩ := mem_filter.mp hp1
+            exact ⟨p.1, p.2, Or.inr ⟨hsp2 ▸ hp3, by simpa using hp4⟩, by simpa using hp2, rfl⟩
+        · rintro ⟨x, y, (hxy | ⟨hxy, hf⟩), hc, rfl⟩
+          · exact Or.inl ⟨(x, y), mem_filter.mpr ⟨hxy, by simpa using hc⟩, rfl⟩
+          · refine Or.inr ⟨(x, y), mem_filter.mpr ⟨mem_filter.mpr ⟨hsp2 ▸ hxy, by simpa using hf⟩, by simpa using hc⟩, rfl⟩
+      by_cases hlen : acc.length > 1
+      · rw [if_pos hlen] at hbfs
+        have hst := MjProof.C22.mjSort_stableSorted (bfCmp_totalPreorder M) acc
+        refine ⟨fun b => ?_, ?_⟩
+        · rw [hbfs, hst.1.mem_iff, hmem_acc]
+        · rw [hbfs]
+          refine hst.2.1.imp ?_
+          intro a b hab
+          unfold Le bfCmp at hab
+          rw [uintCmp_le] at hab
+          exact hab
+      · rw [if_neg hlen] at hbfs
+        refine ⟨fun b => by rw [hbfs, hmem_acc], ?_⟩
+        rw [hbfs]
+        match acc, hlen with
+        | [], _ => exact Pairwise.nil
+        | [a], _ => exact pairwise_singleton _ _
+        | _ :: _ :: _, hl => simp at hl
+
 end MjProof.Broadphase
